@@ -189,8 +189,11 @@ def format_code(
         return source
 
     if safe:
-        # Code may not be deleted from module level
-        module = core.parse(source)
+        # Code may not be deleted from module level. A definition in an if, try, with or loop at
+        # module level is a definition of the module as well.
+        module = ast.Module(
+            body=list(parsing.iter_module_scope_statements(core.parse(source))), type_ignores=[]
+        )
         def_types = (ast.FunctionDef, ast.AsyncFunctionDef, ast.ClassDef)
         fdef_types = (ast.FunctionDef, ast.AsyncFunctionDef)
         defs = {node.name for node in core.filter_nodes(module.body, def_types)}
@@ -209,6 +212,10 @@ def format_code(
             name.id
             for node in core.filter_nodes(module.body, ast.ClassDef)
             for name in parsing.iter_assignments(node)
+        } | {
+            classdef.name  # A class in a class is a member of it
+            for node in core.filter_nodes(module.body, ast.ClassDef)
+            for classdef in core.filter_nodes(node.body, ast.ClassDef)
         }
         preserve = set(preserve) | defs | class_funcs | assignments | class_members
 
